@@ -771,10 +771,13 @@ class EvolutionarySolver(RandomSearchSolver):
         ]
 
         for edge in edges:
-            possible_edges = set(edges) - circuit.find_incompatible_edges(edge)
+            # keep the order of the edge list: iterating a set of (str, int, str) tuples depends on PYTHONHASHSEED,
+            # which made seeded runs differ from one interpreter to the next
+            incompatible_edges = circuit.find_incompatible_edges(edge)
 
-            for another_edge in possible_edges:
-                edge_pair.append((edge, another_edge))
+            for another_edge in edges:
+                if another_edge not in incompatible_edges:
+                    edge_pair.append((edge, another_edge))
 
         return edge_pair
 
@@ -808,10 +811,12 @@ class EvolutionarySolver(RandomSearchSolver):
         ]
 
         for edge in e_edges:
-            possible_edges = set(p_edges) - circuit.find_incompatible_edges(edge)
+            # ordered for the same reason as in _select_possible_cnot_position
+            incompatible_edges = circuit.find_incompatible_edges(edge)
 
-            for another_edge in possible_edges:
-                edge_pair.append((edge, another_edge))
+            for another_edge in p_edges:
+                if another_edge not in incompatible_edges:
+                    edge_pair.append((edge, another_edge))
 
         return edge_pair
 
